@@ -1064,7 +1064,7 @@ Definition h_nonvacuous : list fs_event :=
 
 Example fs_nonvacuous :
   fs_guard_F2 h_nonvacuous = false /\ fs_guard_F4 h_nonvacuous = false /\
-  flat_map (fun st => filter p_ok (t_calls st)) (fs_trace O_rej3 false h_nonvacuous) =
+  flat_map (fun st => filter p_ok (t_calls st)) (fs_trace O_rej3 true h_nonvacuous) =
   [ {| p_kind := KCreated; p_src := Sid 0; p_cid := Some 1; p_ok := true |};
     {| p_kind := KUpdated; p_src := Sid 0; p_cid := Some 2; p_ok := true |};
     {| p_kind := KCreated; p_src := Sid 1; p_cid := Some 4; p_ok := true |};
@@ -1085,3 +1085,25 @@ Example http_nonvacuous :
     {| p_kind := KCreated; p_src := Sid 0; p_cid := Some 2; p_ok := true |};
     {| p_kind := KDeleted; p_src := Sid 0; p_cid := None; p_ok := true |} ].
 Proof. vm_compute. reflexivity. Qed.
+
+(** * Part V — the file-system provider as it is now (after the fix: commit for C18-F2 / C18-F4) *)
+
+Lemma fs_dispatch_fixed_reread ops : ops <> [] -> fs_dispatch true ops = DReread.
+Proof. destruct ops as [|o r]; [intro H; contradiction | intros _; apply fs_dispatch_fixed_cons]. Qed.
+
+(** every notification of any kind makes the repaired provider look at the file:
+    the fairness hypothesis is literally "after the last change of [f] at least
+    one notification for [f] is processed" *)
+Theorem fs_converges_world_fixed O h1 f w h2 :
+  (forall s, deletable O s = true) ->
+  (forall g w', In (FsSet g w') h2 -> g <> f) ->
+  (exists ops, ops <> [] /\ In (FsNotify f ops) h2) ->
+  active_of (fs_trace O true (h1 ++ FsSet f w :: h2)) (Sid f)
+  = target O w (active_of (fs_trace O true h1) (Sid f)).
+Proof.
+  intros Hdel Hns [ops [Hops Hin]]. apply fs_converges_world; [exact Hdel| | |left; reflexivity].
+  - apply forallb_forall. intros e He. destruct e as [g w'| |]; simpl; try reflexivity.
+    apply negb_true_iff. apply Nat.eqb_neq. eapply Hns; eauto.
+  - apply existsb_exists. exists (FsNotify f ops). split; [exact Hin|]. simpl.
+    rewrite Nat.eqb_refl, (fs_dispatch_fixed_reread ops Hops). reflexivity.
+Qed.
